@@ -401,7 +401,7 @@ func (m *machine) modelFor(extra ...*Term) (string, map[string]uint64) {
 		if len(small) == 0 {
 			break
 		}
-		r, mdl := m.solve(append(append([]*Term{}, base...), small...), true, 5000)
+		r, mdl := m.solve(append(append([]*Term{}, base...), small...), true, m.timeout/3)
 		if r == "sat" {
 			return r, mdl
 		}
